@@ -33,7 +33,8 @@ MODE_FRACTION = {"C01": 0.10, "C02": 0.10, "C03": 0.15, "C05": 0.15, "C10": 0.15
 def check(prop, tier, seed):
     rep = Report(prop, tier, seed)
     n = common.tier_n(tier)
-    items = common.choose_items(prop, tier, seed, n, select=_select(prop), mode_fraction=MODE_FRACTION[prop])
+    items = common.choose_items(prop, tier, seed, n, select=_select(prop), mode_fraction=MODE_FRACTION[prop],
+                                prior_fraction=0.08)
     pairs = common.run_campaign(rep, items)
 
     def nontrivial(obs):
